@@ -21,6 +21,7 @@ import (
 	"os"
 	"reflect"
 	"sort"
+	"strconv"
 	"strings"
 	"sync"
 	"time"
@@ -517,11 +518,12 @@ func getServer(pkg, prefix string) (*server, error) {
 			}
 			return next(req)
 		}
-		// convenient errors: NewError maps a plain handler error to the declared error type with status 500
+		// convenient errors: NewError maps an error to the declared error type with the status ogen's own default
+		// handler would use (401 for a security error, 500 for a plain handler error)
 		var ecb NewErrorCB
 		if _, ok := api.Types["ErrorStatusCode"]; ok {
 			ecb = func(ctx context.Context, err error) any {
-				v, berr := Build(api, reflect.TypeOf((*any)(nil)).Elem(), map[string]any{"$type": "*ErrorStatusCode", "$value": map[string]any{"StatusCode": json.Number("500")}})
+				v, berr := Build(api, reflect.TypeOf((*any)(nil)).Elem(), map[string]any{"$type": "*ErrorStatusCode", "$value": map[string]any{"StatusCode": json.Number(strconv.Itoa(ogenerrors.ErrorCode(err)))}})
 				if berr != nil {
 					return nil
 				}
